@@ -47,14 +47,15 @@ CLAIMS = {
              "exported VC is re-interpreted over the reals: every output is an exact linear form of the 2m symbolic inputs with a rigorous "
              "rounding radius, compared with the documented transform (evaluation at omega^(1+4 bitrev j)). A sound unit-input alarm rule "
              "derived from the property decides violations (replayed natively against a long-double DFT); the all-input norm-wise constant "
-             "itself is certified component-wise only (numbers in evidence). Tables read-only and memory safety by the bit-precise run.",
+             "itself is certified component-wise only (numbers in evidence). Tables read-only and memory safety by the bit-precise run; the placement of table and work buffers "
+             "by the real new_*_precomp(m, num_buffers) builders (run symbolically, sin/cos values arbitrary) is decided for m <= 32: writes to every work buffer leave the table bit-identical.",
         note="cbmc 6.11 symex + vcalg (own re-interpreter) + mpmath; standard rounding model, no over/underflow; tables and kernel selection "
              "dumped natively from the real builders; m>64 (256) and AVX-512/SSE units outside",
         technique="CBMC symbolic execution of the real code, exported VC re-interpreted in a real-arithmetic domain with rounding radii (vcalg); bit-precise CBMC run for memory/frame; native replay",
         ref="DESIGN.md 4/C06"),
     "C14": dict(
         text="Bit-precise bounded model checking of every conversion kernel (reference and AVX2 through the shim) and of the real init_* selection "
-             "logic: every lane symbolic over its whole documented window (|x|<2^50, |x/d|<2^50 / 2^52, every int32, |x/d|<2^18, |x/d|<=2^log2overhead), "
+             "logic (incl. the declared bound of init_reim_to_znx64_precomp symbolic in [0,64]: the kernel valid below 2^50 is never selected for a larger bound): every lane symbolic over its whole documented window (|x|<2^50, |x/d|<2^50 / 2^52, every int32, |x/d|<2^18, |x/d|<=2^log2overhead), "
              "divisors 2^0..2^16, log2overhead values with every exponent class of x/d as its own query (the unsplit query is undecided by all SAT back ends); "
              "the 1/2 and 2^(L-50) bounds are decided in double arithmetic via a monotone-rounding argument stated in the harness.",
         note="cbmc 6.11 FP bit-blasting (MiniSat); rint is CBMC's model; quick tier covers log2overhead {0,18,29,48} (ref) and {29} (AVX), thorough all 0..48",
@@ -65,9 +66,10 @@ CLAIMS = {
              "by CBMC; the exported VC is re-interpreted over the integers (vcalg IntDom: exact polynomials, rigorous intervals, floor-division "
              "atoms for masks/shifts/%, sign-aware for the int64/int128 conversions). Every output lane is proved congruent to its specification "
              "modulo its prime as a polynomial identity with integer witness (cross-checked by cvc5 QF_NIA), for ALL operand values of each layout, "
-             "ell in 0..3 (8 thorough); every intermediate add/mul/shift carries a discharged no-wrap obligation; b->int128 is the centered lift.",
+             "ell in 0..3 (8 thorough) executed in full and EVERY ell <= 10000 by loop summarisation (accumulator increments + epilogue on symbolic accumulators, see C04); every intermediate "
+             "add/mul/shift carries a discharged no-wrap obligation; b->int128 is the centered lift.",
         note="cbmc 6.11 symex + own integer re-interpreter + cvc5; c-layout contract assumed; product precomputations dumped from the real builders; "
-             "ell>3(8) as one congruence is outside (additivity + C04 wrap-freedom)",
+             "the summarisation assumes iterations beyond the 6 unrolled ones run the same loop body",
         technique="CBMC symbolic execution of the real code, exported VC re-interpreted as integer polynomials with intervals (vcalg) + cvc5 QF_NIA identity checks; native replay",
         ref="DESIGN.md 4/C10"),
     "C03": dict(
@@ -75,18 +77,23 @@ CLAIMS = {
              "n in {1..64} (256 thorough) with every lane any 64-bit value; the exported VC is re-interpreted over the integers: each output lane is, modulo "
              "its prime, exactly the linear form of the evaluation map at the n primitive 2n-th roots in some order (forward), its inverse (geometric columns "
              "times n^-1), and the identity for ntt-then-intt; all lazy adds/subtracts/partial products carry discharged no-wrap obligations. The int64->residue "
-             "and centered CRT lift conversions are decided on all of int64 / all residues. Sizes above the bound are not claimed.",
+             "and centered CRT lift conversions are decided on all of int64 / all residues; the NTT120 module round trip vec_znx_dft -> vec_znx_idft / idft_tmp_a returns exactly "
+             "the int64 input for N in {1,2,4,8} (all values, by sign class, with zero-extension / truncation). Exactness for sizes above the bound is not claimed (wrap-freedom for every n <= 65536 is C04).",
         note="cbmc 6.11 symex + vcalg integer domain; default 30-bit primes; level metadata/tables dumped from the real builder; n>64 (256) incl. the n=1024 schedule switch outside",
         technique="CBMC symbolic execution of the real code, exported VC re-interpreted as integer linear forms with intervals (vcalg), congruence modulo each prime decided coefficient-wise; native replay",
         ref="DESIGN.md 4/C03"),
     "C04": dict(
-        text="Wrap-freedom of the lazy q120 arithmetic decided on the real code: NTT/iNTT end to end for n up to 64 (256) on all 64-bit lanes, and the ten "
-             "product kernels for ell in {0..3,100} (with congruence) and ell = 10000 = MAX_ELL (kernel loop unrolled 10000 times by CBMC's symbolic "
-             "execution, one streaming pass of the rigorous interval interpreter): every add, lazy subtraction and 32x32 partial-product operand stays inside "
-             "its word for every operand value of the a/b/c layouts; wrap-freedom at ell=10000 implies it for all smaller ell (monotone bounds).",
-        note="cbmc 6.11 symex + vcalg integer-interval domain; constants dumped from the real builders; 29/31-bit prime sets and the per-level induction to n=65536 outside",
-        technique="CBMC symbolic execution of the real code (loops fully unrolled), exported VC interpreted with rigorous integer intervals and explicit no-wrap obligations (vcalg); native replay on the all-maximal pattern",
-        ref="DESIGN.md 4/C04"),
+        text="Wrap-freedom of the lazy q120 arithmetic decided on the real code. NTT/iNTT: executed end to end for n up to 64 (256) on all 64-bit lanes, and a per-level "
+             "interval induction for EVERY n = 2^k <= 65536 (each real level function with the real metadata entry of that n on fresh symbolic vectors; inputs of level l "
+             "bounded by the interval derived for level l-1, symbolic twiddle halves bounded by the maxima of the real table; no add/sub/shift leaves its word and each output "
+             "is congruent to its butterfly formula, so no 32x32 multiply dropped operand bits). Products: the ten kernels executed at ell in {0..3,100} with congruence, and "
+             "EVERY ell <= 10000 = MAX_ELL by loop summarisation from the VC at 6 iterations (accumulator increments bounded over all operand values of the a/b/c layouts; the "
+             "epilogue re-evaluated on accumulators of up to 10000 increments: nothing wraps or loses bits, result congruent to the sum). Thorough: kernels unrolled at 10000/2000 terms.",
+        note="cbmc 6.11 symex + vcalg integer domain; constants / level metadata / twiddle maxima dumped from the real builders; assumes iterations beyond the 6 unrolled ones run the "
+             "same loop body and, for n > 256, that the driver pairs level l's metadata with level l's function as it does for the sizes executed end to end; 29/31-bit prime sets outside",
+        technique="CBMC symbolic execution of the real code, exported VC interpreted as integer polynomials with rigorous intervals and explicit no-wrap obligations (vcalg): end-to-end runs, "
+                  "per-level induction with symbolic twiddles, loop summarisation of the product kernels; native replay on the real transform / kernel at full size",
+        ref="DESIGN.md 4/C04, A.3"),
     "C17": dict(
         text="Bit-precise bounded model checking of the reim4 block extract/save kernels (ref and AVX, all block indices, rows 0..3, strided) and of the "
              "cplx<->reim4 conversion through the real init functions; and exact polynomial equality (vcalg real domain, no tolerance) of the dot products, "
@@ -120,12 +127,17 @@ CLAIMS = {
         technique="CBMC bounded model checking (pointer/bounds checks on exactly-sized objects, SAT) of the real entry points; native ASan replay",
         ref="DESIGN.md 4/C11"),
     "C12": dict(
-        text="Sequential non-interference reduction (CBMC cannot explore schedules of this code): (1) frame - MODULE, virtual table, precomputed objects and sources bit-identical "
-             "after every module-level entry point; (2) no hidden static state - the same entry points verified with every static-lifetime object havocked (--nondet-static); "
-             "(3) warm-up protocol of the *_simple functions - a call after warm-up returns the bits of a fresh table (shared with C15). Not a schedule exploration.",
-        note="cbmc 6.11; theorem: per-call frame + no hidden static state => race freedom/isolation for calls on disjoint data; static writes of a warmed-up *_simple call are not decided",
-        technique="CBMC bounded model checking of per-call frame conditions and of independence from static state (--nondet-static); not a thread-schedule exploration",
-        ref="DESIGN.md 4/C12"),
+        text="Sequential non-interference reduction plus call-granularity interleavings (CBMC cannot explore instruction-level schedules of this code): (1) frame - MODULE, virtual table, "
+             "precomputed objects and sources bit-identical after every module-level entry point; (2) the same entry points verified with every static-lifetime object havocked "
+             "(--nondet-static); (2') SSA write set: in the unsliced VC of every entry point no shared (non thread-local) static-lifetime object is assigned after module construction - "
+             "no lazily initialised table, static scratch buffer or counter; (3) *_simple warm-up protocol: after one call per dimension no later call (same or other parameters) assigns "
+             "shared statics or pre-existing heap, and it returns the terms of a fresh table; (4) the two functions with thread-local caches under two emulated threads (one slot per "
+             "thread), three-call histories with parameters differing in one component. Write-set hits are confirmed by ThreadSanitizer on two real threads, thread histories on two real pthreads.",
+        note="cbmc 6.11 + vcalg; theorem: per-call frame + no shared static writes => race freedom/isolation for calls on disjoint data; weak memory and torn reads during the documented-as-unsafe "
+             "first use are outside; thread-local objects are recognised by CBMC's SSA naming (f::1::x!0)",
+        technique="CBMC bounded model checking of per-call frame conditions and independence from static state (--nondet-static); SSA write-set analysis of the exported VC; uninterpreted-term "
+                  "equality of call histories incl. two emulated threads; ThreadSanitizer / pthread native replay. Not an instruction-level schedule exploration",
+        ref="DESIGN.md 4/C12, A.3"),
     "C15": dict(
         text="(1) three/four-call histories f(M1,P1); f(M2,P2); [f(M1,P2);] f(M1,P1) through every CBMC-executable *_simple caching entry point against a freshly initialised "
              "table, one parameter changed at a time: outputs compared as uninterpreted terms (equal terms => equal bits), cross-checked by z3 QF_UF; (2) integer entry points with "
